@@ -4,4 +4,4 @@ Require Extraction.
 Require ExtrOcamlBasic.
 From Pika Require Import Model.Erased.
 Extraction Language OCaml.
-Extraction "m.ml" sstep fstep init destroy_all trace new_events is_empty sspec fspec spec_trace.
+Extraction "m.ml" sstep fstep fxstep init destroy_all trace new_events is_empty sspec fspec spec_trace.
